@@ -31,6 +31,8 @@ KINDS = [
     (os.path.join("sub", "dir", "nested.api"), b"theta\n\niota\n"),
     (os.path.join("sub2", "lf.name"), b"kappa\n"),  # same file name as the top-level lf.name
     (".dot.file", b"lam\n"),
+    ("hi.first", b"\xef\xbc\xb0ower\n\xbfq\n\xbbr\r\n"),  # first and later lines start with the bytes of a UTF-8 BOM
+    ("bom.file", b"\xef\xbb\xbfnu\nxi\n"),
     (os.path.join(".hid", "inner"), b"mu\n"),
 ]
 DIR_NAMES = ["c18kw", "c18[v2]kw", "c18*kw?", "c18 kw"]
@@ -81,7 +83,7 @@ def plan(tier, seed):
     units += [("single-pair", "include"), ("single-pair", "exclude"), ("iterables",), ("default",)]
     if tier == "thorough":
         units += [("all-include", i) for i in range(16)]
-    units += [("kwdirs", i) for i in range(16)]
+    units += [("kwdirs", i) for i in range(64)]
     return units
 
 
@@ -223,7 +225,7 @@ def run_unit(unit, rec):
             check_decoders(rec, astd, inc, None, lambda: mdreg.get_analyzers(include=inc), {"kind": "analyzers", "include": inc, "exclude": None})
         rec.sample({"all_include_subsets_mod16": unit[1]})
     elif kind == "kwdirs":
-        for mask in range(unit[1], 2 ** len(KINDS), 16):
+        for mask in range(unit[1], 2 ** len(KINDS), 64):
             tmp = tempfile.mkdtemp(prefix=DIR_NAMES[mask % len(DIR_NAMES)])
             try:
                 for i, (name, content) in enumerate(KINDS):
@@ -262,7 +264,7 @@ def replay(w, rec):
             kwargs["exclude"] = exc
         check_decoders(rec, astd, inc, exc, lambda: fn(**kwargs), w)
     elif k == "kwdir":
-        run_unit(("kwdirs", w["mask"] % 16), rec)
+        run_unit(("kwdirs", w["mask"] % 64), rec)
     elif k == "default":
         run_unit(("default",), rec)
     elif k == "iterable":
